@@ -129,6 +129,9 @@ structure Reg where
   types : List (String × NamedT)
   customParse : String → JV → ParseOut
   customParseLiteral : String → Lit → ParseOut
+  /-- the scalar was given its OWN `parse_literal` (`ScalarType._parse_literal is not None`): then `value_from_ast` hands it
+      every kind of literal, not only scalar ones -/
+  customHasParseLiteral : String → Bool
 
 def Reg.get? (r : Reg) (n : String) : Option NamedT :=
   match r.types.find? (fun p => p.1 == n) with
@@ -318,19 +321,45 @@ end
 /-- `default_scalar(...)`: `parse = _identity` -/
 def defaultScalarParse (_ : String) (v : JV) : ParseOut := .value (pvOfJson v)
 
-/-- `default_scalar(...)`: `parse_literal = lambda node, _: node.value` (`IntValue.value` / `FloatValue.value` are the TEXT);
-    a node without `.value` raises AttributeError twice in `ScalarType.parse_literal` and escapes -/
+mutual
+/-- `_untyped_literal` (scalars.py): the transparent conversion of a literal that `default_scalar` uses as its `parse_literal`:
+    numbers keep their SOURCE TEXT, an enum value its name, lists and objects become lists and dicts (a dict comprehension:
+    a repeated key keeps its first position and its last value), `null` is None. `none` = a `Variable` node inside, which has no
+    `.value` (AttributeError). -/
+def untypedLiteral : Lit → Option PV
+  | .null => some .none
+  | .int n => some (.str (toString n))
+  | .float t => some (.str t)
+  | .str s => some (.str s)
+  | .bool b => some (.bool b)
+  | .enum name => some (.str name)
+  | .var _ => none
+  | .list items => (untypedLiteralL items).map .list
+  | .obj fields => (untypedLiteralF fields).map fun kvs => .dict (dictOfAssignments kvs)
+def untypedLiteralL : List Lit → Option (List PV)
+  | [] => some []
+  | x :: xs =>
+    match untypedLiteral x, untypedLiteralL xs with
+    | some v, some vs => some (v :: vs)
+    | _, _ => none
+def untypedLiteralF : List (String × Lit) → Option (List (String × PV))
+  | [] => some []
+  | (k, x) :: xs =>
+    match untypedLiteral x, untypedLiteralF xs with
+    | some v, some vs => some ((k, v) :: vs)
+    | _, _ => none
+end
+
+/-- `default_scalar(...)`: `parse_literal = lambda node, _: _untyped_literal(node)` -/
 def defaultScalarParseLiteral (_ : String) (l : Lit) : ParseOut :=
-  match l with
-  | .int n => .value (.str (toString n))
-  | .float t => .value (.str t)
-  | .str s => .value (.str s)
-  | .bool b => .value (.bool b)
-  | _ => .raised
+  match untypedLiteral l with
+  | some pv => .value pv
+  | none => .refused      -- a Variable inside: AttributeError, which `ScalarType.parse_literal` turns into TypeError for a structured node
 
 /-- a registry whose custom scalars are all `default_scalar`s (what `build_schema` makes of an SDL `scalar X`) -/
 def Reg.ofTypes (types : List (String × NamedT)) : Reg :=
-  { types := types, customParse := defaultScalarParse, customParseLiteral := defaultScalarParseLiteral }
+  { types := types, customParse := defaultScalarParse, customParseLiteral := defaultScalarParseLiteral,
+    customHasParseLiteral := fun _ => true }
 
 /-- `EnumType.get_value` -/
 def getValue (values : List (String × PV)) (name : String) : R :=
@@ -349,6 +378,11 @@ def litKind : Lit → String
 def isScalarLit : Lit → Bool
   | .int _ => true | .float _ => true | .str _ => true | .bool _ => true
   | _ => false
+
+/-- which literals `value_from_ast` hands to a custom scalar's `parse_literal`: scalar literals always; every other kind only
+    if the scalar brought its own `parse_literal` (the guard re-extracted from value_from_ast.py) -/
+def litAdmitted (reg : Reg) (n : String) (l : Lit) : Bool :=
+  isScalarLit l || (customOwnParseLiteralTakesAnyLiteral && reg.customHasParseLiteral n)
 
 /-- `_typed_coerce(coerce_, *types)`: node classes outside the table raise `TypeError` (→ ScalarParsingError) -/
 def admits (k : NamedT) (l : Lit) : Bool :=
@@ -526,7 +560,7 @@ def vfaCore (reg : Reg) (rec : Ty → Lit → R) (t : Ty) (l : Lit) : R :=
         match l with
         | .enum name => getValue vs name
         | _ => .error .coercion
-      | some .custom => if isScalarLit l then (reg.customParseLiteral n l).toR else .error .coercion
+      | some .custom => if litAdmitted reg n l then (reg.customParseLiteral n l).toR else .error .coercion
       | some k => if isScalarLit l then parseLiteral k l else .error .coercion
       | none => .error .internal
     | .nonNull _ => .error .internal     -- raise TypeError("Invalid type for input coercion")
